@@ -125,3 +125,7 @@ pub fn bitval(b: Bit) -> u128 { match b { Bit::Zero => 0, Bit::One => 1 } }
 
 pub mod harness;
 pub use harness::*;
+pub mod harness2;
+pub use harness2::*;
+pub mod registry;
+pub use registry::*;
